@@ -322,6 +322,8 @@ func genNGSetupChoice(t *rapid.T) refamf.NGSetupChoice {
 		AMFPointer:       rapid.IntRange(0, 63).Draw(t, "pointer"),
 		ExtraGUAMIs:      rapid.IntRange(0, 3).Draw(t, "extra_guamis"),
 		ExtraSlices:      rapid.IntRange(0, 4).Draw(t, "extra_slices"),
+		PLMNsBefore:      rapid.SampledFrom([]int{0, 0, 0, 1, 2, 5}).Draw(t, "plmns_before"),
+		PLMNsAfter:       rapid.SampledFrom([]int{0, 0, 1, 3}).Draw(t, "plmns_after"),
 	}
 }
 
@@ -369,6 +371,9 @@ func scenarioClasses(sc refamf.Scenario) []string {
 	var cl []string
 	if sc.NGSetup.BackupAMFName != "" {
 		cl = append(cl, "opt:NGSetupResponse.BackupAMFName")
+	}
+	if sc.NGSetup.PLMNsBefore > 0 {
+		cl = append(cl, "ngsetup-response:other-plmns-listed-first")
 	}
 	for _, u := range sc.UEs {
 		if u.AMFUEID >= 1<<32 {
